@@ -8,8 +8,9 @@ import (
 
 // capability represents a known-safe attribute access after a `has` guard.
 type capability struct {
-	varName types.String // variable or expression identity
-	attr    types.String // attribute name
+	varName types.String // variable or expression identity (see exprVarKey)
+	attr    types.String // attribute name, or tag key when tag is set
+	tag     bool         // the capability was established by hasTag and licenses getTag, not attribute access
 }
 
 // capabilitySet tracks which attributes are safe to access.
